@@ -820,7 +820,7 @@ def request_makers(W):
 
 
 NASTY = ['', '-1', '0', '99999999999999999999999999999', '-99999999999999999999', '1e999', 'NaN', 'INF', 'true', 'x' * 3000,
-         '€ä', 'urn:uuid:00000000-0000-0000-0000-000000000000', 'PT-1S', 'P1Y', 'PT0S', '2000-13-45T99:99:99',
+         '\u20ac\u00e4', 'urn:uuid:00000000-0000-0000-0000-000000000000', 'PT-1S', 'P1Y', 'PT0S', '2000-13-45T99:99:99',
          ' ', '../../etc/passwd', 'http://127.0.0.1:9/canary', '0x10', '1.5', '+5', "'\"<>&"]
 S12 = 'http://www.w3.org/2003/05/soap-envelope'
 WSA = 'http://www.w3.org/2005/08/addressing'
